@@ -34,6 +34,20 @@ def pick_len(rng, cur):
     return n
 
 
+def mc_history(rng):
+    """a plain set/get history (no probes) for the memcheck pass"""
+    cmds = ["NEW 0 - str x" + rbytes(rng, pick_len(rng, 0)).hex()]
+    cur = 0
+    for _ in range(40):
+        nb = rbytes(rng, pick_len(rng, cur))
+        cur = len(nb)
+        cmds += ["SSTR 0 x" + nb.hex(), "GSTR 0"]
+        if rng.random() < 0.2:
+            cmds += ["DCOPY 0 1 0", "EQ 0 1", "GSTR 1", "S 1 0", "PUT 1"]
+    cmds.append("PUT 0")
+    return cmds
+
+
 def shard_fn(shard, nshards, seed, tier, exe, nhist):
     rng = random.Random("%d/%d/c11" % (seed, shard))
     sh = core.Shard()
@@ -247,6 +261,15 @@ def run(tier, seed):
     chk = core.Check(PID, tier, seed)
     sh = core.parallel(shard_fn, seed=seed, tier=tier, exe=bdir + "/jcdrv", nhist=40000 if tier == "quick" else 500000)
     chk.absorb(sh)
+    if tier == "thorough":
+        import random as _r
+        pdir = build.build("plain")
+        rng = _r.Random("%d/mc" % seed)
+        cases = []
+        for i in range(400):
+            cases.append(("mc%d" % i, mc_history(rng)))
+        chk.absorb(core.run_memcheck(pdir + "/jcdrv", cases, PID))
+        chk.extra["memcheck"] = "valgrind memcheck over 400 histories on the uninstrumented build"
     chk.rule = ("histories of new_string / new_string_len / set_string (strlen semantics) / set_string_len over byte strings of all 256 values with lengths from {0,1,7,8,9,15,16,17,31,32,33,127,128,129,4096,65536} "
                 "and current+-1 (crossing the inline threshold and the 'fits in the separate buffer' boundary both ways), every 5th set with its allocation failed by the shim, refused lengths "
                 "(negative, INT_MAX-1, INT_MAX with a 2-byte source); after every step bytes, length and terminator are compared with a byte-string model; equality, deep copy and serialization probes. "
